@@ -16,7 +16,9 @@ import (
 
 type rng struct{ s uint64 }
 
-func newRng(seed uint64) *rng { return &rng{seed*0x9E3779B97F4A7C15 + 0x1234567} }
+// newRng seeds the state from a mixed output, so that consecutive seeds give unrelated streams
+// (seeding the state linearly would make seed n+1 the stream of seed n advanced by one step).
+func newRng(seed uint64) *rng { return (&rng{seed*0x9E3779B97F4A7C15 + 0x1234567}).fork() }
 
 func (r *rng) next() uint64 {
 	r.s += 0x9E3779B97F4A7C15
